@@ -11,7 +11,7 @@ import (
 
 // Run is the domain entry point.
 func Run(c *corr.Ctx) {
-	c.Rule("per codec (av1, vp8, vp9): corpus of repaired failures first; round trips of 1..3 consecutive valid frames (AV1: 1..10 OBUs with sizes within ±4 of the space left in the packet, ±8 of k·limit, LEB128 width changes; VP8/VP9: frame sizes within ±8 of k·(limit-header); payload limits from the smallest workable value, incl. 3 / 2 / 12, 120..140 and 1450; initial sequence numbers and VP9 picture ids incl. wrap inside the run), exhaustive small-size sweeps, fault streams (drop / duplicate / swap on 3..8 frame streams), hostile streams (random, grammar-aware, mutated, shuffled, endless fragments), VP9 frame-header parser cases; non-trivial = multi-packet or multi-frame or faulted; distinct = distinct op-line sequences")
+	c.Rule("per codec (av1, vp8, vp9): corpus of repaired failures first; round trips of 1..3 consecutive valid frames (AV1: 1..10 OBUs with sizes within ±4 of the space left in the packet, ±8 of k·limit, LEB128 width changes; VP8/VP9: frame sizes within ±8 of k·(limit-header); payload limits from the smallest workable value, incl. 3 / 2 / 12, 120..140 and 1450; initial sequence numbers and VP9 picture ids incl. wrap inside the run), exhaustive small-size sweeps, fault streams (drop / duplicate / swap on 3..8 frame streams), hostile streams (random, grammar-aware with consecutive sequence numbers, mutated, shuffled, endless start / continuation fragments, frame buffers filled without marker, both AV1 buffers at once), VP9 frame-header parser cases (valid, truncated, bit-flipped, random); non-trivial = multi-packet or multi-frame or faulted; distinct = distinct op-line sequences")
 	specs := []*cu.Spec{Av1, Vp8, Vp9}
 	if c.Replay != nil {
 		var probe struct {
